@@ -75,4 +75,5 @@ rt.build = _build
 
 
 def run(ctx):
+    common.TIE_EXCUSES["value"] = True
     return common.run_docprop(ctx, "c08", generate, None, extra_fn=extra_fn, n_quick=170, n_thorough=3000)
